@@ -6,7 +6,7 @@ from .readerlib import both_modes, fixtures
 ID = 'C06'
 TARGETS = ['theories/Properties/C06.vo']
 THEOREMS = core.theorems_of(ID)
-LEVEL = ('total reader model in which every assert/unwrap/index of the Rust reader is an explicit Panic branch and the loops run on fuel; proved (Properties/C06.v): for EVERY byte string and option set slp_read returns a value or an error, never Panic or Fuel, and only consumes input; each incremental call (parse_header/start/event/metadata) is total under the state invariant parse_start establishes and parse_event preserves, and a successful event call consumes at least one byte; the model predicts the outcome class of the real reader on structure-aware malformed inputs under every option combination and through the incremental API; aborts and hangs are observed in child processes (real stack and allocator behaviour are outside the model: partial)')
+LEVEL = ('total reader model in which every assert/unwrap/index of the Rust reader is an explicit Panic branch and the loops run on fuel; proved (Properties/C06.v): for EVERY byte string and option set slp_read returns a value or an error, never Panic or Fuel, and only consumes input; each incremental call (parse_header/start/event/metadata) is total under the state invariant parse_start establishes and parse_event preserves, and a successful event call consumes at least one byte; read errors injected by the underlying stream at any read call surface as I/O errors, never as values built from partial data (Model/Frag.v); the model predicts the outcome class of the real reader on structure-aware malformed inputs under every option combination and through the incremental API; aborts and hangs are observed in child processes (real stack and allocator behaviour are outside the model: partial)')
 
 
 def run(ctx):
